@@ -133,8 +133,13 @@ func TraverseStringsFunc[T any](v T, fn func(v string) (string, error)) (T, erro
 			for _, key := range v.MapKeys() {
 				// Create a copy of each map index
 				originalValue := v.MapIndex(key)
-				if originalValue.IsNil() {
-					continue
+				// Only values of these kinds can be nil (IsNil panics for
+				// the others, e.g. the strings of a map[string]string)
+				switch originalValue.Kind() {
+				case reflect.Chan, reflect.Func, reflect.Interface, reflect.Map, reflect.Ptr, reflect.Slice:
+					if originalValue.IsNil() {
+						continue
+					}
 				}
 				copyValue := reflect.New(originalValue.Type()).Elem()
 				// Call traverseFunc recursively
